@@ -7,7 +7,7 @@ from props import c01
 
 VEC_METHODS = ["drop_na", "head", "tail", "sample", "replace_na", "sort", "unique", "rank", "concat", "as_boolean",
                "as_bytes", "as_date", "as_datetime", "as_float", "as_integer", "as_object", "as_string", "map", "range",
-               "tolist", "to_strings", "equal", "is_na", "copy"]
+               "tolist", "to_strings", "equal", "is_na", "copy", "concat_none", "concat_empty", "empty_concat"]
 VEC_PALETTES = [gamma.FLOAT_INF, gamma.INT_SMALL, gamma.INT_BIG, gamma.STR_SHORT, gamma.STR_LONG, gamma.STR_FIXED,
                 gamma.DATE, gamma.DATETIME, gamma.BOOL, gamma.OBJ_INT, gamma.BYTES, gamma.TIMEDELTA, gamma.UINT8]
 
@@ -23,6 +23,12 @@ def vec_call(v, m, pal, rng, other):
         return v.rank(method=rng.choice(["min", "max", "ordinal"]))
     if m == "concat":
         return v.concat(other)
+    if m == "concat_none":
+        return v.concat()
+    if m == "concat_empty":
+        return v.concat(v[:0])
+    if m == "empty_concat":
+        return v[:0].copy().concat(v)
     if m == "map":
         return v.map(lambda x: x)
     if m == "equal":
